@@ -88,9 +88,24 @@ def collect_atoms(conds):
         if t == "cast":
             go(s[2])
             return
-        if t in ("andthen", "optmap", "some"):
+        if t in ("andthen", "optmap", "some", "Some"):
             for x in s[1:]:
                 go(x)
+            return
+        if t == "ite":
+            for x in s[1:]:
+                if x is not None:
+                    go(x)
+            return
+        if t == "match":
+            go(s[1])
+            for x in s[2]:
+                if x is not None:
+                    go(x)
+            return
+        if t == "call" and s[1] == "cmp" and len(s[3]) == 1:
+            go(s[2])
+            go(s[3][0])
             return
         if t == "fn" and s[1] in TRY_FROM:
             go(s[2][0])
@@ -101,7 +116,7 @@ def collect_atoms(conds):
         if t == "matches":
             # (x matches Some(..)) of a checked op: interpreted when x is a checked_* call
             x = s[2]
-            if x[0] in ("andthen", "optmap") or (x[0] == "call" and x[1] == "ok") or (x[0] == "fn" and x[1] in TRY_FROM):
+            if x[0] in ("andthen", "optmap", "ite", "match", "Some") or (x[0] == "call" and x[1] == "ok") or (x[0] == "fn" and x[1] in TRY_FROM) or x == ("lit", "None"):
                 go(x)
                 return
             if x[0] == "call" and x[1].startswith("checked_"):
@@ -154,7 +169,40 @@ def opt_value(x, env):
         return (True, evaluate(x[2], env))
     if t == "Some":
         return (True, evaluate(x[1], env))
+    if x == ("lit", "None"):
+        return (False, None)
+    if t == "ite":
+        c = evaluate(x[1], env)
+        br = x[2] if c else x[3]
+        if br is None:
+            raise Unknown("if without else used as a value")
+        return opt_value(br, env)
+    if t == "match" and len(x) > 3:
+        return opt_value(select_arm(x, env), env)
     raise Unknown("option term " + sshow(x))
+
+
+def select_arm(x, env):
+    """The value of the arm a `match` term takes: scrutinee `a.cmp(b)` against Ordering patterns, or a boolean scrutinee."""
+    scrut, vals, pats = x[1], x[2], x[3]
+    if scrut[0] == "call" and scrut[1] == "cmp" and len(scrut[3]) == 1:
+        a, b = evaluate(scrut[2], env), evaluate(scrut[3][0], env)
+        o = "Less" if a < b else ("Greater" if a > b else "Equal")
+        for p, v in zip(pats, vals):
+            names = [t.strip().split("::")[-1] for t in p.split("|")]
+            if o in names or p.strip() == "_":
+                return v
+        raise Unknown("no arm for ordering " + o)
+    if scrut[0] in ("bin", "un", "lit") or True:
+        try:
+            sv = evaluate(scrut, env)
+        except Unknown:
+            raise
+        for p, v in zip(pats, vals):
+            t = p.strip()
+            if t == "_" or (isinstance(sv, bool) and t == str(sv).lower()) or (not isinstance(sv, bool) and isinstance(sv, int) and t == str(sv)):
+                return v
+    raise Unknown("match " + sshow(scrut))
 
 
 def wrap(v, bits, signed):
@@ -280,7 +328,7 @@ def evaluate(s, env):
     if t == "matches":
         x = s[2]
         pat = s[1]
-        if x[0] in ("andthen", "optmap", "fn", "Some") or (x[0] == "call" and (x[1].startswith("checked_") or x[1] == "ok")):
+        if x[0] in ("andthen", "optmap", "fn", "Some", "ite", "match") or x == ("lit", "None") or (x[0] == "call" and (x[1].startswith("checked_") or x[1] == "ok")):
             try:
                 ok, _ = opt_value(x, env)
             except Unknown:
